@@ -1218,6 +1218,9 @@ def tricore_ld(obj, off2, off1, b, a):
     elif obj.mnemonic=="LD_D"  : dst = getE(obj, a)
     elif obj.mnemonic=="LDMST" : dst = getE(obj, a)
     elif obj.mnemonic=="LD_DA" : dst = getP(obj, a)
+    if obj.mode in ("Bit-reverse", "Circular") and b % 2 == 1:
+        # these modes use the address register pair P[b]: b must be even
+        raise InstructionError(obj)
     obj.b = b
     src1 = env.A[b]
     off10 = off1//off2
@@ -1273,6 +1276,9 @@ def tricore_st(obj, off2, off1, b, a):
     elif obj.mnemonic=="ST_D"  : dst = getE(obj, a)
     elif obj.mnemonic=="ST_DA" : dst = getP(obj, a)
     elif obj.mnemonic=="LDMST" : dst = getE(obj, a)
+    if obj.mode in ("Bit-reverse", "Circular") and b % 2 == 1:
+        # these modes use the address register pair P[b]: b must be even
+        raise InstructionError(obj)
     obj.b = b
     src1 = env.A[b]
     off10 = off1//off2
